@@ -226,50 +226,81 @@ func runC05(c *Ctx) {
 		c.viol("C05.R3", "anchor-lost:templ.SanitizeCSS", "", "templ.SanitizeCSS (exported) not found")
 	} else {
 		key := funcKey(tp, fd)
-		// every return either goes through safehtml.SanitizeCSS on string(value), or is inside `if reflect.TypeOf(value) == <SafeCSSProperty type>`
+		// every return that uses the value raw (not through the results of safehtml.SanitizeCSS) must be inside a branch
+		// that pins the value's type to SafeCSSProperty
 		okAll := true
 		why := ""
+		var valueParam types.Object
+		if len(fd.Type.Params.List) > 0 {
+			last := fd.Type.Params.List[len(fd.Type.Params.List)-1]
+			if len(last.Names) > 0 {
+				valueParam = tp.TypesInfo.Defs[last.Names[len(last.Names)-1]]
+			}
+		}
+		pinsType := func(is *ast.IfStmt) bool {
+			txt := types.ExprString(is.Cond)
+			if strings.HasPrefix(txt, "reflect.TypeOf(") && strings.Contains(txt, "== ") {
+				rhs := strings.TrimSpace(txt[strings.Index(txt, "== ")+3:])
+				if init := pkgVarInit(tp, rhs); init != nil && strings.Contains(types.ExprString(init), "SafeCSSProperty(") {
+					return true
+				}
+			}
+			if is.Init != nil {
+				if as, ok := is.Init.(*ast.AssignStmt); ok && len(as.Rhs) == 1 {
+					if ta, ok := as.Rhs[0].(*ast.TypeAssertExpr); ok && ta.Type != nil && strings.HasSuffix(types.ExprString(ta.Type), "SafeCSSProperty") && len(as.Lhs) == 2 && types.ExprString(is.Cond) == types.ExprString(as.Lhs[1]) {
+						return true
+					}
+				}
+			}
+			return false
+		}
+		nraw := 0
 		ast.Inspect(fd.Body, func(x ast.Node) bool {
 			ret, ok := x.(*ast.ReturnStmt)
-			if !ok {
+			if !ok || len(ret.Results) != 1 {
 				return true
 			}
+			raw := false
+			ast.Inspect(ret.Results[0], func(y ast.Node) bool {
+				if id, ok := y.(*ast.Ident); ok && valueParam != nil && tp.TypesInfo.ObjectOf(id) == valueParam {
+					raw = true
+				}
+				return true
+			})
+			if !raw {
+				return true
+			}
+			nraw++
 			guarded := false
 			ast.Inspect(fd.Body, func(y ast.Node) bool {
-				if is, ok := y.(*ast.IfStmt); ok && is.Body.Pos() <= ret.Pos() && ret.End() <= is.Body.End() {
-					txt := types.ExprString(is.Cond)
-					if strings.HasPrefix(txt, "reflect.TypeOf(") && strings.Contains(txt, "== ") {
-						// the compared type variable is initialised from SafeCSSProperty
-						rhs := txt[strings.Index(txt, "== ")+3:]
-						if init := pkgVarInit(tp, strings.TrimSpace(rhs)); init != nil && strings.Contains(types.ExprString(init), "SafeCSSProperty(") {
-							guarded = true
-						}
-					}
+				if is, ok := y.(*ast.IfStmt); ok && is.Body.Pos() <= ret.Pos() && ret.End() <= is.Body.End() && pinsType(is) {
+					guarded = true
+				}
+				if cc, ok := y.(*ast.CaseClause); ok && cc.Pos() <= ret.Pos() && ret.End() <= cc.End() && len(cc.List) == 1 && strings.HasSuffix(types.ExprString(cc.List[0]), "SafeCSSProperty") {
+					guarded = true
 				}
 				return true
 			})
-			if guarded {
-				// the property name is still sanitised
-				if !strings.Contains(types.ExprString(ret.Results[0]), "safehtml.SanitizeCSSProperty(") {
-					okAll, why = false, "the SafeCSSProperty bypass does not sanitise the property name"
-				}
-				return true
-			}
-			// non-bypass return: built from the results of safehtml.SanitizeCSS
-			usesSan := false
-			ast.Inspect(fd.Body, func(y ast.Node) bool {
-				if call, ok := y.(*ast.CallExpr); ok {
-					if fn := calleeOf(tp.TypesInfo, call); fn != nil && fullName(fn) == modPath+"/safehtml.SanitizeCSS" && call.End() <= ret.Pos() {
-						usesSan = true
-					}
-				}
-				return true
-			})
-			if !usesSan {
-				okAll, why = false, "a return outside the type-guarded bypass does not use safehtml.SanitizeCSS"
+			if !guarded {
+				okAll, why = false, "a return uses the value unsanitised ("+types.ExprString(ret.Results[0])+") outside a branch that pins its type to SafeCSSProperty: every other named string type bypasses the sanitiser"
+			} else if !strings.Contains(types.ExprString(ret.Results[0]), "safehtml.SanitizeCSSProperty(") {
+				okAll, why = false, "the SafeCSSProperty bypass does not sanitise the property name"
 			}
 			return true
 		})
+		// the sanitising path exists and converts the value for safehtml.SanitizeCSS
+		usesSan := false
+		ast.Inspect(fd.Body, func(y ast.Node) bool {
+			if call, ok := y.(*ast.CallExpr); ok {
+				if fn := calleeOf(tp.TypesInfo, call); fn != nil && fullName(fn) == modPath+"/safehtml.SanitizeCSS" {
+					usesSan = true
+				}
+			}
+			return true
+		})
+		if !usesSan {
+			okAll, why = false, "templ.SanitizeCSS no longer calls safehtml.SanitizeCSS"
+		}
 		c.check(okAll, "C05.R3", key+"|bypass-guarded-by-type", c.pos(fd.Pos()), "unsanitised values pass only under reflect.TypeOf(value) == SafeCSSProperty; the name is sanitised on both paths",
 			"templ.SanitizeCSS: "+why)
 	}
@@ -743,7 +774,9 @@ func rootVar(info *types.Info, e ast.Expr) types.Object {
 		case *ast.SliceExpr:
 			e = x.X
 		case *ast.CallExpr:
-			if fn := calleeOf(info, x); fn != nil && fn.Pkg() != nil && fn.Pkg().Path() == "strings" && strings.HasPrefix(fn.Name(), "Trim") && len(x.Args) >= 1 {
+			// TrimSpace / TrimPrefix / TrimSuffix remove a fixed, known part; the cutset-based Trim* functions remove
+			// arbitrarily many characters (strings.Trim(f, `"`) hides doubled quotes from a validator) and are not views
+			if fn := calleeOf(info, x); fn != nil && fn.Pkg() != nil && fn.Pkg().Path() == "strings" && (fn.Name() == "TrimSpace" || fn.Name() == "TrimPrefix" || fn.Name() == "TrimSuffix") && len(x.Args) >= 1 {
 				e = x.Args[0]
 				continue
 			}
